@@ -56,16 +56,39 @@ func TestBinaryExpiryConfig(t *testing.T) {
 		addr := pc.LocalAddr().String()
 		pc.Close()
 		args := []string{"--backends", "stdout", "--metrics-addr", addr, "--flush-interval", "100ms", "--statser-type", "null", "--max-workers", "1", "--max-readers", "1"}
+		// every setting reaches the command either as a flag, through the configuration file, or through the environment
+		var cfgLines, envs []string
+		place := func(opt, val string) {
+			switch rapid.SampledFrom([]string{"flag", "flag", "file", "env"}).Draw(t, "where-"+opt) {
+			case "flag":
+				args = append(args, "--"+opt, val)
+			case "file":
+				cfgLines = append(cfgLines, fmt.Sprintf("%s = '%s'", opt, val))
+			default:
+				envs = append(envs, "GSD_"+strings.ToUpper(strings.ReplaceAll(opt, "-", "_"))+"="+val)
+			}
+		}
 		if main != "" {
-			args = append(args, "--expiry-interval", main)
+			place("expiry-interval", main)
 		}
 		for _, typ := range []string{"counter", "gauge", "set", "timer"} {
 			if per[typ] != "" {
-				args = append(args, "--expiry-interval-"+typ, per[typ])
+				place("expiry-interval-"+typ, per[typ])
 			}
 		}
+		if len(cfgLines) > 0 {
+			dir, err := os.MkdirTemp("", "c09cfg")
+			if err != nil {
+				t.Fatalf("%v", err)
+			}
+			defer os.RemoveAll(dir)
+			if err := os.WriteFile(dir+"/gostatsd.toml", []byte(strings.Join(cfgLines, "\n")+"\n"), 0o600); err != nil {
+				t.Fatalf("%v", err)
+			}
+			args = append(args, "--config-path", dir+"/gostatsd.toml")
+		}
 		cmd := exec.Command(bin, args...)
-		cmd.Env = append(os.Environ(), "AWS_CA_BUNDLE=")
+		cmd.Env = append(append(os.Environ(), "AWS_CA_BUNDLE="), envs...)
 		out, err := cmd.StderrPipe()
 		if err != nil {
 			t.Fatalf("pipe: %v", err)
